@@ -903,9 +903,11 @@ def run(ctx):
     rep.rule = (
         "%d scenarios (byte streams from the units a, ESC, ESC[A, a 2-byte and a 3-byte character cut into bursts at every byte position, "
         "thresholds None/2/8; all placements of 1-2 (selected 3) environment events - event/threadsafe/scheduled triggers with past, equal and "
-        "future times, SIGINT, arrivals, unget_bytes - among requests with timeouts 0/5.0/None; multi-kilobyte bursts) x every execution with at "
+        "future times, SIGINT, arrivals, unget_bytes, falsy event objects, a trigger registered during a request - among requests with timeouts "
+        "0/5.0/None; lifecycle: input pending before the context is entered, input between leaving and re-entering, disable_terminal_start_stop "
+        "on/off, TCSAFLUSH honoured; multi-kilobyte bursts up to 201 000 keypresses, table sequences at every alignment to the 1 024-byte read) x every execution with at "
         "most %d deviation(s) from the default schedule (an event delivered early at any kernel call of a request, inside a timed wait, or a "
-        "thread-safe callback's write deferred past its append). evaluations = executions of the real Input; transitions = choice points; "
+        "thread-safe callback preempted between any two of its lines). evaluations = executions of the real Input; transitions = choice points; "
         "states = scenarios; distinct outcomes = distinct observation sequences" % (len(all_scenarios(ctx.tier)), bound)
     )
     rep.assumptions = [
